@@ -269,7 +269,7 @@ def to_mutation(m):
                                 legacy_app_label=m.get('legacy'),
                                 model_names=m.get('model_names'))
     if k == 'SQLMutation':
-        return M.SQLMutation(m['tag'], ['SELECT 1;'],
+        return M.SQLMutation(m['tag'], list(m.get('sql') or ['SELECT 1;']),
                              update_func=_noop_update)
     raise ValueError(k)
 
